@@ -35,7 +35,7 @@ class T(Model):
     def __repr__(self):
         return f"{self.head}({', '.join(map(repr, self.args))})" if self.args else self.head
 
-    METHODS = {"diff", "subs", "expand", "copy", "toarray", "conj", "adjoint"}
+    METHODS = {"diff", "subs", "expand", "copy", "toarray", "conj", "adjoint", "diagonal"}
 
     def m_getattr(self, eng, name):
         if name in self.METHODS:
@@ -219,6 +219,8 @@ class Sym(Model):
         return clsname in ("Basic", "Symbol", "Expr")
 
     def m_binop(self, eng, op, other, reflected):
+        if isinstance(op, ast.Eq):
+            return other is self          # structural equality of sympy: a symbol equals only itself (never a number)
         l, r = (other, self) if reflected else (self, other)
         return T(type(op).__name__, l, r)
 
@@ -307,6 +309,24 @@ class SetType(Model):
         return False
 
 
+class Power(Model):
+    """The exponent of a symbol in a key: an integer e (any sign), or - when `frac` holds - a non-integer number (sqrt(x), x**(3/2))."""
+
+    def __init__(self, e, frac):
+        self.e, self.frac = e, frac
+
+    def m_getattr(self, eng, name):
+        if name == "is_Integer":
+            return SB(z3.Not(self.frac))
+        raise Unsupported(f"power.{name}")
+
+    def m_binop(self, eng, op, other, reflected):
+        if isinstance(op, ast.GtE) and not reflected and isinstance(other, int) and other == 0:
+            # only ever asked after is_Integer (short-circuit `and`): the sign of the integer exponent
+            return SB(self.e >= 0)
+        return NotImplemented
+
+
 class PowersDict(Model):
     def __init__(self, mono):
         self.mono = mono
@@ -314,6 +334,15 @@ class PowersDict(Model):
     def m_getattr(self, eng, name):
         if name == "keys":
             return Builtin("powers.keys", lambda e: self.mono.key_set(e))
+        if name == "items":
+            def items(e):
+                out = [STup([s, Power(self.mono.exps[s], self.mono.frac[s])]) for s in self.mono.present(e)]
+                if e.branch(self.mono.pref):
+                    out.append(STup([PREFACTOR, 1]))
+                elif not out:
+                    out.append(STup([1, 1]))
+                return STup(out, None, True)
+            return Builtin("powers.items", items)
         raise Unsupported(f"as_powers_dict().{name}")
 
     def m_getitem(self, eng, key):
@@ -323,20 +352,26 @@ class PowersDict(Model):
 
 
 class Mono(Model):
-    """A sympy monomial key: prod_s s^e_s (e_s >= 0 symbolic), possibly with a numeric prefactor != 1."""
+    """A sympy power-product key: prod_s s^e_s with e_s an integer of either sign or (flag frac_s) a non-integer, possibly with a numeric prefactor != 1.
+    It is a MONOMIAL iff every e_s is a non-negative integer and there is no prefactor."""
 
     def __init__(self, eng, label, syms, can_have_prefactor=True):
         self.label = label
         self.exps = {s: eng.fresh(f"exp_{label}_{s.name}") for s in syms}
-        for v in self.exps.values():
-            eng.assume(v >= 0)
+        self.frac = {s: eng.fresh(f"noninteger_power_{label}_{s.name}", "bool") for s in syms}
         self.pref = eng.fresh(f"has_prefactor_{label}", "bool") if can_have_prefactor else z3.BoolVal(False)
 
     def __repr__(self):
         return f"Mono({self.label})"
 
+    def occurs(self, s):
+        return z3.Or(self.exps[s] != 0, self.frac[s])
+
+    def bad_power(self):
+        return z3.Or(*[z3.And(self.occurs(s), z3.Or(self.frac[s], self.exps[s] < 0)) for s in self.exps])
+
     def present(self, eng):
-        return [s for s, v in self.exps.items() if eng.branch(v > 0)]
+        return [s for s in self.exps if eng.branch(self.occurs(s))]
 
     def key_set(self, eng):
         els = list(self.present(eng))
@@ -383,22 +418,24 @@ def unit_symbolic_keys(nsym, nkeys, timeout_ms=20000, noncommutative=False, give
         # precondition: the keys of a dict are distinct expressions (distinct monomials unless a prefactor distinguishes them)
         for qa in range(nkeys):
             for qb in range(qa):
-                eng.assume(z3.Or(keys[qa].pref, keys[qb].pref, *[keys[qa].exps[s] != keys[qb].exps[s] for s in syms]))
+                eng.assume(z3.Or(keys[qa].pref, keys[qb].pref, *[z3.Or(keys[qa].exps[s] != keys[qb].exps[s], keys[qa].frac[s], keys[qb].frac[s]) for s in syms]))
         eng.globals.update({"set": SetType(), "sorted": Builtin("sorted", _sorted),
                             "sympy": Namespace("sympy", {"sympify": Builtin("sympify", lambda e, x: x)})})
         supplied = STup(list(syms), None, True) if given else None
         clo = Closure(fn, Env(None, {}), "_symbolic_keys_to_tuples")
         any_pref = z3.Or(*[k.pref for k in keys])
-        used = {s: z3.Or(*[k.exps[s] > 0 for k in keys]) for s in syms}
+        used = {s: z3.Or(*[k.occurs(s) for k in keys]) for s in syms}
         nc_used = z3.Or(*[used[s] for s in syms if not s.commutative]) if noncommutative else z3.BoolVal(False)
+        any_bad_power = z3.Or(*[k.bad_power() for k in keys])
         try:
             res = eng.call(clo, [ham] + ([supplied] if given else []), {})
         except PyRaise as pr:
             eng.oblige("raises-only-ValueError", z3.BoolVal(pr.exc.cls == "ValueError"), detail=pr.exc.cls)
-            eng.oblige("raises-only-for-a-prefactor-or-a-noncommutative-symbol", z3.Or(any_pref, nc_used),
-                       detail="ValueError only if some key carries a numerical prefactor or a non-commutative symbol occurs")
+            eng.oblige("raises-only-for-a-prefactor-a-noncommutative-symbol-or-a-power-that-is-no-natural-number", z3.Or(any_pref, nc_used, any_bad_power),
+                       detail="ValueError only if some key carries a numerical prefactor, a non-commutative symbol occurs, or a symbol has a negative / non-integer power")
             return
         eng.oblige("prefactor-rejected", z3.Not(any_pref), detail="a key with a numerical prefactor other than 1 must be rejected")
+        eng.oblige("negative-or-fractional-power-rejected", z3.Not(any_bad_power), detail="1/x, sqrt(x), x**(3/2) are not monomials: accepting them would create an order index that is never requested")
         eng.oblige("noncommutative-symbol-rejected", z3.Not(nc_used))
         r = eng.as_seq(res)
         new, symbols = r.items[0], eng.as_seq(r.items[1])
@@ -585,7 +622,7 @@ def unit_dict_to_blockseries(h0_kind, symbolic_keys=False, timeout_ms=10000):
         eng.globals.update({
             "copy": Builtin("copy", lambda e, d: dict(d)),
             "sympy": Namespace("sympy", {"Basic": TypeObj("Basic")}),
-            "np": Namespace("np", {"ndarray": TypeObj("ndarray")}),
+            "np": Namespace("np", {"ndarray": TypeObj("ndarray"), "diag": Builtin("np.diag", lambda e, x: T("np.diag", x))}),
             "is_diagonal": Builtin("is_diagonal", lambda e, h, atol=None: SB(diag)),
             "sparse": Namespace("sparse", {"issparse": Builtin("issparse", lambda e, x: isinstance(x, Val) and "sparse" in x.kinds),
                                              "csr_array": Builtin("csr_array", lambda e, x: T("csr_array", x))}),
@@ -609,6 +646,10 @@ def unit_dict_to_blockseries(h0_kind, symbolic_keys=False, timeout_ms=10000):
             v = data[z]
             same = v is h0
             rew = isinstance(v, T) and v.head == "csr_array" and len(v.args) == 1 and v.args[0] is h0
+            if h0_kind == "ndarray":
+                # a dense H_0 that is diagonal within atol is replaced by the sparse matrix OF ITS DIAGONAL (entries within atol are zeros; sparse blocks are compared with zero exactly)
+                a = v.args[0] if isinstance(v, T) and v.head == "csr_array" and len(v.args) == 1 else None
+                rew = isinstance(a, T) and a.head == "np.diag" and isinstance(a.args[0], T) and a.args[0].head == ".diagonal" and a.args[0].args[0] is h0
             eng.oblige("zeroth-order-kept-or-rewrapped-as-csr", z3.BoolVal(same or rew), detail=repr(v))
             if h0_kind == "ndarray":
                 eng.oblige("dense-zeroth-order-converted-iff-diagonal", z3.BoolVal(rew) == diag)
@@ -791,13 +832,25 @@ def unit_subspaces_from_indices(nb, symbolic, timeout_ms=10000):
 
         def csr_array(e, x):
             return Matrix("csr_array", x)
+        some_negative = eng.fresh("some_label_is_negative", "bool")
+
+        def np_any(e, x):
+            if isinstance(x, T) and x.head == "Lt" and x.args[0] is labels and x.args[1] == 0:
+                return SB(some_negative)
+            raise Unsupported("np.any of something else")
         eng.globals.update({
             "np": Namespace("np", {"array": Builtin("np.array", np_array), "max": Builtin("np.max", lambda e, x: nb - 1 if x is labels else T("max", x)),
+                                   "any": Builtin("np.any", np_any),
                                    "arange": Builtin("np.arange", lambda e, n: T("arange", n)),
                                    "compress": Builtin("np.compress", lambda e, c, a: T("compress", c, a))}),
             "sparse": Namespace("sparse", {"identity": Builtin("sparse.identity", identity), "csr_array": Builtin("sparse.csr_array", csr_array)}),
         })
-        res = eng.call(Closure(fn, Env(None, {}), "_subspaces_from_indices"), [raw], {"symbolic": symbolic})
+        try:
+            res = eng.call(Closure(fn, Env(None, {}), "_subspaces_from_indices"), [raw], {"symbolic": symbolic})
+        except PyRaise as pr:
+            eng.oblige("raises-only-ValueError-for-a-negative-label", z3.And(z3.BoolVal(pr.exc.cls == "ValueError"), some_negative), detail=pr.exc.cls)
+            return
+        eng.oblige("negative-label-rejected", z3.Not(some_negative), detail="a state with a negative label belongs to no block: accepting it would silently drop the state")
         r = eng.as_seq(res)
         ok = r.tail is None and len(r.items) == nb
         eng.oblige("one-subspace-per-label-0..max", z3.BoolVal(ok), detail=repr(res)[:200])
